@@ -284,9 +284,7 @@ func ReqFromProto(w *proto.WriteRequest) Req {
 		}
 		p.Cid = q.GetClientIdentity()
 		p.Pkey = q.PartitionKey != nil
-		for _, d := range q.SequenceKeyDelta {
-			p.Deltas = append(p.Deltas, int(d))
-		}
+		p.SetDeltas(q.SequenceKeyDelta)
 		for _, ix := range q.SecondaryIndexes {
 			p.Idx = append(p.Idx, IdxE{N: K(ix.IndexName), K: K(ix.SecondaryKey)})
 		}
